@@ -668,6 +668,7 @@ pub fn dispatch(args: &Args, table: Vec<Prop>) -> i32 {
         return 2;
     };
     if let Some(path) = &args.replay {
+        crate::hang::start_monitor(p.id, args.tier.name(), args.seed, "exploration", Some(path.clone()));
         let case = match load_case(path) {
             Ok(c) => c,
             Err(e) => {
@@ -695,6 +696,7 @@ pub fn dispatch(args: &Args, table: Vec<Prop>) -> i32 {
         };
     }
     let mut ctx = Ctx::new(p.id, args.tier, args.seed);
+    crate::hang::start_monitor(p.id, args.tier.name(), args.seed, &ctx.level, None);
     // known findings: active iff open and the saved input still fails with the listed fingerprint
     let none = KnownFindings::default();
     for k in ctx.kf.for_property(p.id) {
